@@ -219,6 +219,114 @@ def run_case(c):
             out['r'] = 'err ' + type(e).__name__
     elif k == 'reuse':
         out = run_reuse(st, c)
+    elif k == 'dsend':
+        out = run_dsend(st, c)
+    elif k == 'bna':
+        out = run_bna(st, c)
+    return out
+
+
+def _capture_addr(st):
+    n = st['NetAddr']('127.0.0.1', 57110)
+    n._osc_interface = st['cap']
+    ids = iter(range(1000, 100000))
+    n._make_sync_responder = lambda cond: next(ids)
+
+    class Cond:
+        test = False
+
+        def wait(self):
+            return iter(())
+
+        def signal(self):
+            pass
+    real_sync = st['NetAddr'].sync
+    n.sync = lambda condition=None, latency=None, elements=None: real_sync(n, Cond(), latency, elements)
+    return n
+
+
+def run_dsend(st, c):
+    """SynthDef._do_send with a definition of a chosen byte size and a completion message"""
+    from tools import osc10
+    from sc3.synth.synthdef import SynthDef
+    st['clock']._elapsed_osc_offset = 0
+    n = _capture_addr(st)
+
+    class FakeServer:
+        addr = n
+    sd = SynthDef.__new__(SynthDef)
+    sd._name = 'big'
+    data = bytes((i * 7 + 3) % 251 for i in range(c['size']))
+    sd._bytes = memoryview(data)
+    sd._write_def_file = lambda d: None
+    sent = st['sent']
+    del sent[:]
+    out = {}
+    try:
+        sd._do_send(FakeServer(), pv(c['completion']))
+        kinds = []
+        for d in sent:
+            addr, vals, _ = osc10.read_message(d)
+            kinds.append(addr.decode())
+        out['sizes'] = [len(d) for d in sent]
+        out['kinds'] = kinds
+        if kinds == ['/d_recv']:
+            out['r'] = f'ok recv {len(sent[0])}'
+            out['blob_ok'] = vals[0] == ('b', data)
+            out['tail'] = sent[0][8 + 4 + 4 + len(data) + (-len(data) % 4):].hex()
+            out['ntags'] = len(vals)
+        elif kinds == ['/d_load']:
+            out['r'] = 'ok load'
+        else:
+            out['r'] = 'ok ' + ','.join(kinds)
+    except Exception as e:
+        out['r'] = 'err ' + type(e).__name__
+    return out
+
+
+def run_bna(st, c):
+    """BundleNetAddr (server.bind()) histories: collect / sync / exit"""
+    from tools import osc10
+    from sc3.base.netaddr import BundleNetAddr
+    st['clock']._elapsed_osc_offset = 0
+    n = _capture_addr(st)
+    sent = st['sent']
+    del sent[:]
+    per_op, dgrams = [], []
+
+    def flush():
+        counts = []
+        for d in sent:
+            pkt = osc10.read_packet(d)
+            addrs = [a.decode() for _, a, _ in osc10.flatten(pkt)]
+            counts.append(len(addrs))
+            dgrams.append({'addrs': addrs, 'size': len(d)})
+        del sent[:]
+        return 'ok ' + ','.join(str(x) for x in counts)
+    out = {}
+    try:
+        b = BundleNetAddr(n)
+        with b:
+            for op in c['ops']:
+                if op[0] == 'msg':
+                    b.send_msg(*pv(op[1]))
+                elif op[0] == 'bundle':
+                    b.send_bundle(None, *pv(op[1]))
+                elif op[0] == 'clumped':
+                    b.send_clumped_bundles(None, *pv(op[1]))
+                elif op[0] == 'status':
+                    b.send_status_msg()
+                elif op[0] == 'sync':
+                    for _ in b.sync(None, None, None if op[1] is None else pv(op[1])):
+                        pass
+                per_op.append(flush())
+        per_op.append(flush())
+        out['r'] = 'ok'
+        out['ops'] = per_op
+        out['dgrams'] = dgrams
+    except Exception as e:
+        out['r'] = 'err ' + type(e).__name__
+        out['ops'] = per_op
     return out
 
 
